@@ -33,7 +33,7 @@ _FORMAT_STRING_REGEX = r"""
     (?P<pre_match>.*?)  # stuff before the match
     (
         %  # starting character
-        (?P<mapping_key>\([^\)]+\))?
+        (?P<mapping_key>\([^\)]*\))?
         (?P<conversion_flags>[#0\- +]+)?
         (?P<field_width>\*|[0-9]+)?
         (?P<precision>\.(\*|[0-9]*))?
